@@ -143,13 +143,13 @@ def _y_scalar(v, rng):
         return v[1]
     if SAFE.match(v) and v.lower() not in YAML_WORDS and rng.chance(1, 2):
         return v
-    return json.dumps(v)
+    return json.dumps(v, ensure_ascii=False)   # raw UTF-8: a JSON surrogate-pair escape is not YAML
 
 
 def _y_key(k, rng):
     if SAFE.match(k) and k.lower() not in YAML_WORDS and rng.chance(3, 4):
         return k
-    return json.dumps(k)
+    return json.dumps(k, ensure_ascii=False)
 
 
 def _y_flow(v, rng):
@@ -191,7 +191,9 @@ BARE = re.compile(r"^[A-Za-z0-9_-]+$")
 
 
 def _t_str(s):
-    return json.dumps(s).replace("\x7f", "\\u007f")
+    # TOML basic string: JSON's escapes for quote, backslash and control characters are TOML's too; everything
+    # else is written raw (a JSON surrogate-pair escape would be invalid TOML)
+    return json.dumps(s, ensure_ascii=False).replace("\x7f", "\\u007f")
 
 
 def _t_key(k):
@@ -266,7 +268,7 @@ LEVELS = ["off", "error", "warn", "info", "debug", "trace"]
 DURS = [("30 seconds", 30, 0), ("1s", 1, 0), ("5 min", 300, 0), ("2h 30m", 9000, 0), ("1500ms", 1, 500000000),
         ("1day", 86400, 0), ("100 ms", 0, 100000000), ("3 weeks", 1814400, 0), ("45sec", 45, 0)]
 BAD_DURS = ["soon", "30", "10 parsecs", "", "-5s", "@D@/zz"]
-LOGGER_NAMES = ["app", "app::x", "app::x::y", "other", "lib::é", "app::z"]
+LOGGER_NAMES = ["app", "app::x", "app::x::y", "other", "lib::é", "app::z", "lib::\U0001F600"]
 APP_NAMES = ["a0", "a1", "a2", "a3", "main-file", "app é", "x.y"]
 SIZE_UNITS = [("b", 1), ("kb", 1024), ("kib", 1024), ("mb", 1024 ** 2), ("mib", 1024 ** 2),
               ("gb", 1024 ** 3), ("tb", 1024 ** 4)]
@@ -294,7 +296,7 @@ def gen_logical(rng):
     apps = []
     for i, nm in enumerate(names):
         k = rng.choice(["file", "file", "file", "rolling", "rolling", "console"])
-        enc = rng.choice([None, ("pattern", "P%d|{l}|{t}|{m}{n}" % i), ("pattern", "P%d|{l}|{t}|{m}{n}" % i),
+        enc = rng.choice([None, ("pattern", "P%d|{l}|{t}|{m}{n}" % i), ("pattern", "P%d\U0001F600é|{l}|{t}|{m}{n}" % i),
                           ("pattern", "%d {h({l})} {M} {m}{n}" % i), ("json",)])
         a = {"name": nm, "kind": k, "filters": [rng.below(6) for _ in range(rng.choice([0, 0, 1, 1, 2]))], "enc": enc}
         if k == "console":
@@ -639,7 +641,7 @@ def file_list(doc):
 
 
 def probes_for(doc, rng):
-    targets = ["", "app", "app::x", "app::x::y::deep", "other", "lib::é", "appx"]
+    targets = ["", "app", "app::x", "app::x::y::deep", "other", "lib::é", "appx", "lib::\U0001F600"]
     lg = doc.get("loggers")
     if isinstance(lg, dict):
         targets += [t for t in lg.keys() if t not in targets]
